@@ -6,7 +6,7 @@ import z3
 from smir.values import *   # noqa
 from smir.interp import State
 
-CRATES = ['basset_sei_validators_registry']
+CRATES = ['basset_sei_validators_registry', 'basset_sei_hub']
 BOUNDS = {'quick': {'validators': '0..4', 'loop_unwinding': 'unwinding assertion: while-loop of calculate_undelegations exits within 3 passes'},
           'thorough': {'validators': '0..6'}}
 ASSUMPTIONS = ['sum of existing delegations + amount <= u128::MAX (outside: the contract panics on overflow)',
@@ -140,6 +140,8 @@ for _n in range(0, 7):
 
 
 def tier_filter(name, tier):
+    if name.startswith('hub_'):
+        return True
     n = int(name.rsplit('n', 1)[1])
     return n <= NMAX[tier]
 
@@ -195,6 +197,9 @@ def oracle_undeleg(d, amt, out):
 
 
 def replay_any(v, run_scenario, obname=None):
+    if (v.get('key') or '').startswith('unbond_'):
+        from checks.c02 import replay_any as r2
+        return r2(v, run_scenario)
     m = v['model']
     if 'amount' not in m:
         return {'status': 'unavailable', 'detail': 'violation without a concrete model (%s)' % v.get('site')}
@@ -214,4 +219,12 @@ def replay_any(v, run_scenario, obname=None):
             'detail': '' if bad else 'real code satisfies the property on the model input'}
 
 
+def _hub_messages(ctx):
+    """the hub turns the undelegation plan into Undelegate messages: they remove exactly the requested amount and never more
+    from a validator than is delegated there (two delegation entries; world, claims and replay of C02's unbond obligation)"""
+    from checks.c02 import mk as mk2
+    return mk2('unbond_bsei', 1, 2)(ctx)
+
+
+OBLIGATIONS.append(('hub_undelegate_messages_d2', _hub_messages))
 REPLAY = {'*': replay_any}
